@@ -3,6 +3,7 @@ package harness
 import (
 	"context"
 	"fmt"
+	"sync"
 	"testing"
 	"testing/synctest"
 	"time"
@@ -259,6 +260,48 @@ func evalRound(node *Node, in JRound, times int) (impl JRoundImpl, evals []strin
 			}
 		}
 	}()
+	// evaluation under a cancelled context, under another epoch/round of the same sequence number, and concurrently with
+	// other evaluations: if a value is returned it must be the same bytes
+	{
+		var aos []ocr2plustypes.AttributedObservation
+		for _, o := range in.Obs {
+			aos = append(aos, ocr2plustypes.AttributedObservation{Observation: unhx(o.Raw), Observer: commontypes.OracleID(o.Oracle)})
+		}
+		var prevBytes []byte
+		if in.Prev != nil {
+			prevBytes = must(fromJOutcome(*in.Prev).Encode())
+		}
+		cctx, cancel := context.WithCancel(context.Background())
+		cancel()
+		if b, err := node.Plugin.Outcome(cctx, ocr3types.OutcomeContext{SeqNr: in.Seq, PreviousOutcome: prevBytes}, nil, aos); err == nil {
+			evals = append(evals, hx(b)+"|")
+		}
+		if b, err := node.Plugin.Outcome(context.Background(), ocr3types.OutcomeContext{SeqNr: in.Seq, Epoch: 7, Round: 3, PreviousOutcome: prevBytes}, nil, aos); err == nil {
+			evals = append(evals, hx(b)+"|")
+		}
+		var wgc sync.WaitGroup
+		conc := make([]string, 6)
+		for g := range conc {
+			wgc.Add(1)
+			go func(g int) {
+				defer wgc.Done()
+				if g%2 == 1 {
+					// unrelated rounds in flight at the same time
+					node.Plugin.Outcome(context.Background(), ocr3types.OutcomeContext{SeqNr: in.Seq + uint64(100+g), PreviousOutcome: prevBytes}, nil, aos)
+					return
+				}
+				if b, err := node.Plugin.Outcome(context.Background(), ocr3types.OutcomeContext{SeqNr: in.Seq, PreviousOutcome: prevBytes}, nil, aos); err == nil {
+					conc[g] = hx(b) + "|"
+				}
+			}(g)
+		}
+		wgc.Wait()
+		for _, c := range conc {
+			if c != "" {
+				evals = append(evals, c)
+			}
+		}
+	}
 	for k := 0; k < times; k++ {
 		if k == 2 {
 			// a different round in between (another Encode in the same process)
